@@ -33,7 +33,7 @@ Definition is_word (c : char) : bool :=
   || (c =? 170) || (c =? 181) || (c =? 186)
   || (in_rng 192 255 c && negb (c =? 215) && negb (c =? 247))
   || (in_rng 913 929 c) || (in_rng 931 969 c)
-  || in_rng 1024 1103 c
+  || in_rng 1024 1119 c
   || in_rng 66560 66639 c
   || in_rng 19968 40955 c.
 
